@@ -35,6 +35,9 @@ def carrier_yaml(address_size=16, endian='little', origin=None, zones=None, data
             'inda': {'operand_values': {'ia': {'type': 'indirect_register', 'register': 'a', 'bytecode': {'value': 1, 'size': 8},
                                                'offset': {'size': 8, 'byte_align': True}}}},
             # a branch whose operand is an address written as an expression; the field carries target - own address
+            # a branch relative to the instruction's LAST byte, limited to -128 .. 127
+            'rel8e': {'operand_values': {'rle': {'type': 'relative_address', 'offset_from_instruction_end': True,
+                                                 'argument': {'size': 8, 'byte_align': True, 'min': -128, 'max': 127}}}},
             'rel8': {'operand_values': {'rl': {'type': 'relative_address', 'argument': {'size': 8, 'byte_align': True}}}},
             # a page-local jump: the low 4 bits of a target that has to lie in the instruction's own 16-byte page
             'pg4': {'operand_values': {'pa': {'type': 'address', 'argument': {'size': 4, 'byte_align': False, 'slice_lsb': True, 'match_address_msb': True}}}},
@@ -58,6 +61,7 @@ def carrier_yaml(address_size=16, endian='little', origin=None, zones=None, data
             'n2': {'bytecode': {'value': 2, 'size': 4}},
             'jp4': {'bytecode': {'value': 7, 'size': 4}, 'operands': {'count': 1, 'operand_sets': {'list': ['pg4']}}},
             'ldo': {'bytecode': {'value': 0xD0, 'size': 8}, 'operands': {'count': 1, 'operand_sets': {'list': ['inda']}}},
+            'bre': {'bytecode': {'value': 0xD9, 'size': 8}, 'operands': {'count': 1, 'operand_sets': {'list': ['rel8e']}}},
             'bra': {'bytecode': {'value': 0xD8, 'size': 8}, 'operands': {'count': 1, 'operand_sets': {'list': ['rel8']}}},
             'mov': {'bytecode': {'value': 0xC0, 'size': 8},
                     'operands': {'count': 1, 'operand_sets': {'list': ['reg']}}},
